@@ -513,8 +513,20 @@ pub fn url_show(u: &Url) -> String {
 }
 
 fn apply_steps<B>(mut rb: attohttpc::RequestBuilder<B>, steps: &[Step]) -> attohttpc::RequestBuilder<B> {
-    for s in steps {
+    for (k, s) in steps.iter().enumerate() {
+        // the ways of setting a field are interchangeable: header / try_header / headers_mut, in rotation
+        let way = (k + match s { Step::Header(n, v) | Step::Append(n, v) => n.len() + v.len(), _ => 0 }) % 3;
         rb = match s {
+            Step::Header(n, v) if way == 1 => rb.try_header(http::HeaderName::from_bytes(n.as_bytes()).unwrap(), v.clone()).expect("valid field"),
+            Step::Header(n, v) if way == 2 => {
+                rb.headers_mut().insert(http::HeaderName::from_bytes(n.as_bytes()).unwrap(), http::HeaderValue::from_bytes(v).unwrap());
+                rb
+            }
+            Step::Append(n, v) if way == 1 => rb.try_header_append(http::HeaderName::from_bytes(n.as_bytes()).unwrap(), v.clone()).expect("valid field"),
+            Step::Append(n, v) if way == 2 => {
+                rb.headers_mut().append(http::HeaderName::from_bytes(n.as_bytes()).unwrap(), http::HeaderValue::from_bytes(v).unwrap());
+                rb
+            }
             Step::Header(n, v) => rb.header(http::HeaderName::from_bytes(n.as_bytes()).unwrap(), http::HeaderValue::from_bytes(v).unwrap()),
             Step::Append(n, v) => rb.header_append(http::HeaderName::from_bytes(n.as_bytes()).unwrap(), http::HeaderValue::from_bytes(v).unwrap()),
             Step::Basic(u, p) => rb.basic_auth(u, p.as_ref()),
